@@ -88,6 +88,33 @@ def model_check(report, N, K, fault_sel, die, liveness=True, outcomes=False, tag
     return outs
 
 
+LOG_INVS = ["NoLogLost", "LoggerKilledOnDeath", "OrphanOnlyByMergerDeath", "MergerDeathLeavesLogger"]
+
+
+def logchannel_check(report, N, K, fault_sel, die, merger_dies=0, tag="lc"):
+    """Specification growth (spec/LogChannel.tla): ParallelAdd extended with the log process and its queue.
+    The extension refines ParallelAdd; no message is lost before a return; the log process is killed on a
+    worker's death and is left running exactly when a merge process dies.  Returns the terminal
+    (outcome, logger state) pairs."""
+    base = CFG.format(spec="LFairSpec", N=N, K=K, FaultSel=fault_sel, Die=die_name(die),
+                      Assign="NoAssign", RecSt="none", RecNrec=0, MergerDies=merger_dies)
+    cfg = write_cfg("lc_%s.cfg" % tag, base, list(SAFETY) + LOG_INVS + ["LTerminalOutcome"], ["BaseSpec", "LTermination"])
+    r = run_tlc("LogChannel", cfg, workers=16, tag=tag)
+    inst = "LogChannel N=%d K=%d faults=%s die=%s merger_dies=%s (refinement of ParallelAdd, liveness)" % (N, K, fault_sel, die, merger_dies)
+    report.add_tlc("LogChannel", r, inst)
+    if not r.ok:
+        report.violation("model: %s %s violated on %s" % (r.kind, r.violated, inst),
+                         {"kind": "model", "module": "LogChannel", "violated": r.violated,
+                          "last_state": r.last_state, "signature": {"model": r.violated}})
+        return []
+    outs = set()
+    for p in r.prints:
+        if p.startswith('<<"LOGOUTCOME"'):
+            d = json.loads(common.tla_string_payloads(p)[1])
+            outs.add((d["st"], d["logger"]))
+    return sorted(outs)
+
+
 # ------------------------------------------------------------------ items and sketches
 
 CMS_ARGS = {"cms_type": "linear", "width": 4, "depth": 2}
@@ -264,6 +291,18 @@ def replay_outcome(report, N, K, fault_sel, die, out, rng, which, batch, kill_me
         return bad("the real code hangs (%s); specification terminates with '%s'" % (res, out["st"]))
     if outcome != out["st"]:
         return bad("real outcome '%s' (%r), specification '%s'" % (outcome, res if outcome == "raised" else "", out["st"]))
+    # the log process (spec/LogChannel.tla): where the specification leaves it at the end of this outcome.
+    # Compared for the record only -- no listed property speaks about the log process, so a difference is
+    # noted in the evidence (spec_deviations) and never reported as a violation.
+    lt = [t for t in sched.threads if t.name.startswith("_log_worker")]
+    if lt:
+        got_l = "killed" if lt[0].killed else "done" if lt[0].finished else "running"
+        want_l = "done" if out["st"] == "returned" else ("running" if kill_merger else "killed")
+        key = "%s/logger_%s" % (out["st"], got_l)
+        lo = report.cov.setdefault("logger_outcomes", {})
+        lo[key] = lo.get(key, 0) + 1
+        if got_l != want_l and len(report.cov.setdefault("spec_deviations", [])) < 5:
+            report.cov["spec_deviations"].append("log process %s where LogChannel.tla has %s (%s)" % (got_l, want_l, json.dumps(scen)[:300]))
     deqs = [(w, i) for kind, w, i in sched.log if kind == "deq"]
     got_assign = [w + 1 for w, _i in deqs]
     if outcome == "returned":
